@@ -55,14 +55,20 @@ def ctx_field(x):
 
 
 def auth_method_present(p):
-    """truth of co_props[authentication_method].has_value() on the path"""
+    """does the path establish that enhanced authentication takes part in this handshake?  Either form the code may use:
+    co_props[authentication_method].has_value(), or a non-empty authenticator.method() (the form used since F11: the
+    property can be set by the user without an authenticator, the authenticator cannot be installed without a method)"""
+    from c19 import _present_guard
     val = None
     for c in p.conds():
         o = p.origin(c, c.x)
-        if contains(o, lambda n: is_call(n, 'has_value')) and contains(o, lambda n: n.get('n') == 'authentication_method'):
-            cm = p.cmp(c)
-            if cm:
-                val = cm[0] == '!='
+        cm = p.cmp(c)
+        if cm and contains(o, lambda n: is_call(n, 'has_value')) and contains(o, lambda n: n.get('n') == 'authentication_method'):
+            val = cm[0] == '!='
+        elif _present_guard(None, o, c.pol, depth=1):
+            val = True
+        elif _present_guard(None, o, 'F' if c.pol == 'T' else 'T', depth=1):
+            val = False
     return val
 
 
